@@ -50,32 +50,25 @@ def main():
                      "demo_patched_tail": o1[-400:], "tests_passed": base.count("PASSED")})
         meta["confirmed"] = rc0 == 0 and rc1 != 0 and base == mut
         meta["ran"] += ["demo on clean worktree", "demo on patched worktree", "baseline tests on both"]
-    finally:
-        sh(f"git -C {REPO} worktree remove --force {wt}")
-    if meta["confirmed"]:
-        rc, o = sh(f"git -C {REPO} status --porcelain")
-        if o.strip():
-            meta["error"] = "/repo not clean"
-            return meta
-        try:
-            sh(f"git -C {REPO} apply {os.path.abspath(patch)}")
+        if meta["confirmed"]:
+            # run the checks against the patched scratch worktree (TOPSIM_SRC), /repo is not touched
+            env2 = dict(os.environ, TOPSIM_SRC=wt, PYTHONDONTWRITEBYTECODE="1")
+            os.remove(os.path.join(wt, "demo_seed.py"))
             t0 = time.time()
-            rc, o = sh(f"./check {pid} --tier quick", cwd=VERIF, timeout=3600)
+            rc, o = sh(f"./check {pid} --tier quick", cwd=VERIF, env=env2, timeout=3600)
             meta["check_rc"] = rc
             meta["check_tail"] = "\n".join(l[:300] for l in o.splitlines()[-6:])
             meta["check_wall_s"] = round(time.time() - t0, 1)
             sj = os.path.join(outdir, "scan.json")
-            rc2, o2 = sh(f"{PY} -m lib.scan --tier quick --json {sj}", cwd=VERIF, timeout=3600)
+            rc2, o2 = sh(f"{PY} -m lib.scan --tier quick --json {sj}", cwd=VERIF, env=env2, timeout=3600)
             if os.path.exists(sj):
                 meta["scan"] = json.load(open(sj))
-            meta["ran"] += [f"./check {pid} --tier quick on /repo with the patch applied",
-                            "python -m lib.scan --tier quick (all code-dependent parts of all checks)"]
-        finally:
-            sh(f"git -C {REPO} checkout -- .")
-            rc, o = sh(f"git -C {REPO} status --porcelain")
-            meta["repo_restored"] = not o.strip()
-        meta["caught_by_own_check"] = meta.get("check_rc") == 1
-        meta["caught_by"] = sorted(meta.get("scan", {}).get("caught_by", {}).keys())
+            meta["ran"] += [f"TOPSIM_SRC=<patched worktree> ./check {pid} --tier quick",
+                            "TOPSIM_SRC=<patched worktree> python -m lib.scan --tier quick (all code-dependent parts of all checks)"]
+            meta["caught_by_own_check"] = meta.get("check_rc") == 1
+            meta["caught_by"] = sorted(meta.get("scan", {}).get("caught_by", {}).keys())
+    finally:
+        sh(f"git -C {REPO} worktree remove --force {wt}")
     shutil.copy(patch, os.path.join(outdir, "patch.diff"))
     shutil.copy(demo, os.path.join(outdir, "demo.py"))
     if notes and os.path.exists(notes):
